@@ -264,8 +264,12 @@ func positionsReplay(t *testing.T, env vh.Env) bool {
 		return false
 	}
 	var c PosCase
-	if err := vh.LoadReplayCase(env.Replay, &c); err != nil || c.Kind != "positions" {
+	if err := vh.LoadReplayCase(env.Replay, &c); err != nil || (c.Kind != "positions" && c.Kind != "tlsrestart") {
 		return false
+	}
+	if c.Kind == "tlsrestart" {
+		positionsRun(t, env, nil) // tlsRestartJudge picks the scenario up from the replay file
+		return true
 	}
 	positionsRun(t, env, []PosCase{c})
 	return true
@@ -308,6 +312,7 @@ func positionsRun(t *testing.T, env vh.Env, cases []PosCase) {
 			}
 		}
 	}
+	tlsRestartJudge(env, run)
 	if err := run.Finish("positions: membership histories (join, leave, crash, replacement by a new name with no Position() call in between, same-name restart) on 2-4 real memberlists with adversarial names over the in-memory hub in virtual time; one case per settled instant = every live peer's (name, Position()); non-trivial = history with a replacement"); err != nil {
 		t.Fatal(err)
 	}
